@@ -1,7 +1,8 @@
 //! Instrumented global allocator: while a tracker is installed on the current thread every
 //! allocation is recorded (address, size, alignment), every deallocation is checked against its
 //! record and *quarantined* (the memory is not handed back until the program ends, so a
-//! use-after-free reads stale bytes instead of someone else's data), and deallocations of tagged
+//! use-after-free reads stale bytes instead of someone else's data; released weak side records are
+//! additionally poisoned), and deallocations of tagged
 //! blocks (object boxes, weak side records) are reported as events.
 
 use std::alloc::{GlobalAlloc, Layout, System};
@@ -160,6 +161,13 @@ unsafe impl GlobalAlloc for Instrumented {
                     // quarantine with the layout it was allocated with
                     let l = Layout::from_size_align(b.size, b.align).unwrap();
                     t.quarantine.push((addr, l));
+                    // A released side record is poisoned: the harness never reads it, so whoever still reads it (a
+                    // `Weak` query after a premature release, a layout read after `drop_metadata`) gets an
+                    // unmistakably wrong answer or faults instead of a plausible stale one. Object boxes are not
+                    // poisoned: the oracles read canaries of quarantined boxes.
+                    if let Tag::Meta(_) = tag {
+                        unsafe { std::ptr::write_bytes(addr as *mut u8, 0xA5, b.size) };
+                    }
                     true
                 }
                 None => false,
